@@ -7,9 +7,10 @@ between `edb/server/compiler_pool/pool.py` (server: belief per worker,
 `compile`, `compile_in_tx`) and `edb/server/compiler_pool/worker.py` (worker:
 `__sync__`, `compile`, `compile_in_tx`) — the code AFTER the repairs
 2709780 (callback merges with `old if new is None else new`), 03eafed
-(`__sync__` unpickles everything before installing anything) and ae526a3
+(`__sync__` unpickles everything before installing anything), ae526a3
 (`LAST_STATE` assigned after pickling; the pool forgets `_last_pickled_state`
-when `worker.call` raises).  Helper lemmas and proofs are in
+when `worker.call` raises) and 3499a3b (a request that `worker_proc.worker` /
+`handle_client_call` cannot unpickle is answered with a `FailedStateSync`).  Helper lemmas and proofs are in
 `EdbVerif/Lemmas/Sync*.lean`; the pre-repair transitions survive in
 `Model/SyncBuggy.lean` for the `C17_repaired_…` theorems only.
 
@@ -54,22 +55,18 @@ theorem C17_used_exact (env : Env) (st : State) (r : CReq) (u : Used)
     (h : (stepCompile env st r).2.used = some u) : u = r.supplied ↔ Safe (st r.w) r :=
   Sync.compile_used_exact' env st r u h
 
-/-- **C17_used** (partial: two hypotheses).  If no earlier `compile` request
-    ended with status 2 (`NoStatus2`) and every earlier request could be read by the
-    worker (`NoLostRequest`), every `compile` request is served with exactly the
+/-- **C17_used** (partial: one hypothesis).  If no earlier `compile` request
+    ended with status 2, every `compile` request is served with exactly the
     five parts it supplied — however identities are re-used, with falsy values
     and sync failures at every failure point before it.
 
     Full statement (FALSE, see `C17_used_counterexample_status2`):
     `∀ env init pre r, (stepCompile env (exec env (initState init) pre) r).2.usedSupplied r`.
-    Missing: `BaseWorker.call` cannot acknowledge after status 2
-    (`C17_used_counterexample_status2`), and it does acknowledge a request that
-    `worker_proc.worker` could not even unpickle
-    (`C17_used_counterexample_lost_request`). -/
+    Missing: `BaseWorker.call` cannot acknowledge after status 2. -/
 theorem C17_used_partial (env : Env) (init : Side) (pre : List Req) (r : CReq)
-    (hl : NoStatus2 pre) (hr : NoLostRequest pre) :
+    (hl : NoStatus2 pre) :
     (stepCompile env (exec env (initState init) pre) r).2.usedSupplied r :=
-  Sync.used_noStatus2 env init pre r hl hr
+  Sync.used_noStatus2 env init pre r hl
 
 /-- **C17_used when identities never come back.**  In every history — status 2
     replies included — in which no request supplies, for a slot, an identity
@@ -77,9 +74,9 @@ theorem C17_used_partial (env : Env) (init : Side) (pre : List Req) (r : CReq)
     every `compile` request is served with exactly the five parts it supplied:
     a stale belief only causes harmless re-sends. -/
 theorem C17_used_noreturn (env : Env) (init : Side) (pre : List Req) (r : CReq)
-    (hr : NoLostRequest pre) (h : NoReturn init (pre ++ [.compile r])) :
+    (h : NoReturn init (pre ++ [.compile r])) :
     (stepCompile env (exec env (initState init) pre) r).2.usedSupplied r :=
-  Sync.used_noReturn env init pre r hr h
+  Sync.used_noReturn env init pre r h
 
 /-- `compile_in_tx` (partial): whenever the call (re)sets the root user schema
     of the transaction's compiler state, it sets it to the supplied one — also
@@ -90,16 +87,16 @@ theorem C17_used_noreturn (env : Env) (init : Side) (pre : List Req) (r : CReq)
     Full statement (FALSE, see `C17_used_tx_counterexample_status2`): the same
     without `NoStatus2 pre`. -/
 theorem C17_used_tx_partial (env : Env) (init : Side) (pre : List Req) (r : TReq)
-    (hl : NoStatus2 pre) (hr : NoLostRequest pre) :
+    (hl : NoStatus2 pre) :
     (stepTx env (exec env (initState init) pre) r).2.usedRoot r :=
-  Sync.txRoot_noStatus2 env init pre r hl hr
+  Sync.txRoot_noStatus2 env init pre r hl
 
 /-- … or provided identities never come back (which here also demands that the
     transaction's root schema has not been superseded). -/
 theorem C17_used_tx_noreturn (env : Env) (init : Side) (pre : List Req) (r : TReq)
-    (hr : NoLostRequest pre) (h : NoReturn init (pre ++ [.tx r])) :
+    (h : NoReturn init (pre ++ [.tx r])) :
     (stepTx env (exec env (initState init) pre) r).2.usedRoot r :=
-  Sync.txRoot_noReturn env init pre r hr h
+  Sync.txRoot_noReturn env init pre r h
 
 /-! ## C17_belief — "belief says x ⇒ the worker holds x" -/
 
@@ -109,9 +106,9 @@ theorem C17_used_tx_noreturn (env : Env) (init : Side) (pre : List Req) (r : TRe
 
     Full statement (FALSE, see `C17_belief_counterexample_status2`):
     `∀ env init h w, Agree (exec env (initState init) h w)`. -/
-theorem C17_belief_partial (env : Env) (init : Side) (h : List Req) (hl : NoStatus2 h)
-    (hr : NoLostRequest h) (w : Nat) : Agree (exec env (initState init) h w) :=
-  Sync.agree_exec env init h hl hr w
+theorem C17_belief_partial (env : Env) (init : Side) (h : List Req) (hl : NoStatus2 h) (w : Nat) :
+    Agree (exec env (initState init) h w) :=
+  Sync.agree_exec env init h hl w
 
 /-- **Second sentence of the property, at full strength.**  A failed state
     transfer (`FailedStateSync`) changes no believed slot and leaves every
@@ -133,16 +130,14 @@ theorem C17_failed_sync_preserves_agreement (env : Env) (st : State) (r : CReq)
   rw [hact]
   exact ha x hx
 
-/-- For every request the worker could read: a belief changes only to a value that
-    was sent in this request and that the worker has installed.  (Not so for a request
-    the worker cannot unpickle: `C17_used_counterexample_lost_request`.) -/
-theorem C17_belief_moves_with_worker (env : Env) (st : State) (r : CReq)
-    (hr : r.out ≠ .requestUnreadable) (σ : Slot) :
+/-- Unconditionally: a belief changes only to a value that was sent in this
+    request and that the worker has installed. -/
+theorem C17_belief_moves_with_worker (env : Env) (st : State) (r : CReq) (σ : Slot) :
     ((stepCompile env st r).1 r.w).bel.get σ = (st r.w).bel.get σ ∨
       ∃ t, (preargs (st r.w).bel r).at r.db σ = some t ∧
         ((stepCompile env st r).1 r.w).bel.get σ = some t ∧
         ((stepCompile env st r).1 r.w).act.get σ = some t :=
-  Sync.compile_bel_slot' env st r hr σ
+  Sync.compile_bel_slot' env st r σ
 
 /-- The `assert`s in `sync_worker_state_cb` never fire. -/
 theorem C17_callback_asserts_hold (env : Env) (st : State) (r : CReq) :
@@ -244,21 +239,6 @@ theorem C17_used_tx_counterexample_status2 :
   have := h ⟨400, some 12⟩ (by decide) 12 rfl
   revert this; decide
 
-/-- a request the worker cannot read: `worker_proc.worker` fails in `pickle.loads(req)`
-    (here: a compile argument), nothing runs, the reply is status 1 with that exception,
-    `BaseWorker.call` runs the callback: the server believes schema 12 is installed, the
-    worker still has 8 — and the next request supplying 12 is compiled against 8.  No
-    identity returns (`NoReturn` holds), no status 2. -/
-theorem C17_used_counterexample_lost_request :
-    NoReturn init0 [.compile (C 0 12 20 28 .requestUnreadable 400), .compile (C 0 12 20 28 .ok 404)] ∧
-    (run [.compile (C 0 12 20 28 .requestUnreadable 400)] 0).bel.get (.schema 0) = some 12 ∧
-    (run [.compile (C 0 12 20 28 .requestUnreadable 400)] 0).act.get (.schema 0) = some 8 ∧
-    ¬ (stepCompile tokEnv (run [.compile (C 0 12 20 28 .requestUnreadable 400)])
-        (C 0 12 20 28 .ok 404)).2.usedSupplied (C 0 12 20 28 .ok 404) := by
-  refine ⟨by decide, by decide, by decide, fun h => ?_⟩
-  have := h ⟨8, 28, 16, 20, 36⟩ (by decide)
-  revert this; decide
-
 /-- why `C17_intx` needs the dbview invariant: after a failed call the pool holds
     `_last_pickled_state = None`; a caller passing `None` would match it
     (`None is None`), get the REUSE marker and run on the worker's state 400. -/
@@ -317,6 +297,21 @@ theorem C17_repaired_last_state :
     (stepTx tokEnv (run [.compile (C 0 8 20 28 .ok 400), .compile (C 0 8 20 28 .statePickleFail 404)])
         (T 0 8 (some 400) .ok 408)).2 = ⟨.byName, .ok, some ⟨400, some 8⟩⟩ := by decide
 
+/-- 3499a3b — a request the worker cannot read.  `worker_proc.worker` fails in
+    `pickle.loads(req)` (a compile argument), nothing runs.  Before the repair the reply
+    was status 1 with that ordinary exception and `BaseWorker.call` ran the callback: the
+    server believed schema 12 was installed, the worker still had 8, and the next request
+    supplying 12 was compiled against 8 (no identity returns, no status 2).  Now the reply
+    is a `FailedStateSync`: no acknowledgement, 12 is sent again. -/
+theorem C17_repaired_lost_request :
+    ((Buggy.stepCompileLost (initState init0) (C 0 12 20 28 .requestUnreadable 400)).1 0).bel.get
+        (.schema 0) = some 12 ∧
+    (stepCompile tokEnv (Buggy.stepCompileLost (initState init0) (C 0 12 20 28 .requestUnreadable 400)).1
+        (C 0 12 20 28 .ok 404)).2.used = some ⟨8, 28, 16, 20, 36⟩ ∧
+    (run [.compile (C 0 12 20 28 .requestUnreadable 400)] 0).bel.get (.schema 0) = some 8 ∧
+    (stepCompile tokEnv (run [.compile (C 0 12 20 28 .requestUnreadable 400)])
+        (C 0 12 20 28 .ok 404)).2.used = some (C 0 12 20 28 .ok 404).supplied := by decide
+
 /-! ## Non-vacuity: the hypotheses are satisfiable by non-trivial histories -/
 
 /-- a history with an empty config, a failed sync, a status-2 reply, a compile
@@ -345,11 +340,10 @@ def hNoStatus2 : List Req :=
    .tx (T 0 8 (some 400) .raiseMutated 412), .compile (C 1 12 25 32 .statePickleFail 416),
    .compile (C 0 8 20 28 .ok 420), .tx (T 0 8 (some 400) .resultUnpicklable 424)]
 
-example : NoStatus2 hNoStatus2 ∧ NoLostRequest hNoStatus2 := by
-  constructor <;>
-  · intro q hq
-    simp only [hNoStatus2, List.mem_cons, List.mem_nil_iff, or_false] at hq
-    rcases hq with h | h | h | h | h | h | h <;> subst h <;> simp [Req.noStatus2, Req.noLostRequest, C]
+example : NoStatus2 hNoStatus2 := by
+  intro q hq
+  simp only [hNoStatus2, List.mem_cons, List.mem_nil_iff, or_false] at hq
+  rcases hq with h | h | h | h | h | h | h <;> subst h <;> simp [Req.noStatus2, C]
 
 example : ((trace tokEnv (initState init0) hNoStatus2).map
     (fun o => match o with | .compile c => c.res | .tx t => t.res)) =
@@ -395,18 +389,17 @@ theorem C17_remote_used_current (env : Env) (init : Nat → Side) (dom : Nat →
     compiler server has stored the new parts, and the EdgeDB server does not acknowledge. -/
 theorem C17_remote_used_partial (env : Env) (init : Nat → Side) (dom : Nat → List Nat)
     (size : Nat) (pre : List MReq) (q : MReq)
-    (h : NoFailedSync env (initMT init dom size) pre) (hr : NoLostRequestMT pre) :
+    (h : NoFailedSync env (initMT init dom size) pre) :
     (stepMT env (execMT env (initMT init dom size) pre) q).2.usedSupplied q :=
   SyncMT.usedSupplied_step' env _ q (SyncMT.inv_exec env pre _ (SyncMT.inv_init init dom size))
-    (SyncMT.agree1_exec env q.c pre _ (SyncMT.agree1_init init dom size q.c) h hr)
+    (SyncMT.agree1_exec env q.c pre _ (SyncMT.agree1_init init dom size q.c) h)
 
 /-- **Remote path, belief of the EdgeDB server** (partial): without `FailedStateSync` results,
     what the EdgeDB server of a client believes the compiler server holds is what it holds. -/
 theorem C17_remote_belief_partial (env : Env) (init : Nat → Side) (dom : Nat → List Nat)
-    (size : Nat) (h : List MReq) (hn : NoFailedSync env (initMT init dom size) h)
-    (hr : NoLostRequestMT h) (c : Nat) :
+    (size : Nat) (h : List MReq) (hn : NoFailedSync env (initMT init dom size) h) (c : Nat) :
     Agree1 (execMT env (initMT init dom size) h) c :=
-  SyncMT.agree1_exec env c h _ (SyncMT.agree1_init init dom size c) hn hr
+  SyncMT.agree1_exec env c h _ (SyncMT.agree1_init init dom size c) hn
 
 /-- **Remote path, record of the compiler server** (partial): without status 2, "the
     compiler server records version `v` of client `c` for worker `w`" implies "`w` holds
@@ -496,12 +489,15 @@ theorem C17_remote_used_counterexample_failed_sync :
   have := h ⟨44, 52, 16, 20, 36⟩ (by decide)
   revert this; decide
 
-/-- a request the compiler server cannot unpickle (`handle_client_call`): nothing is stored,
-    but the client acknowledges: it believes schema 44 is there and elides it next time —
-    compiled against 8. -/
-theorem C17_remote_used_counterexample_lost_request :
+/-- 3499a3b on the remote path — a request the compiler server cannot unpickle
+    (`handle_client_call`): nothing is stored.  Before the repair the client acknowledged
+    it anyway, believed schema 44 was there, elided it next time and was compiled
+    against 8; now the reply is a `FailedStateSync` and 44 is sent again. -/
+theorem C17_repaired_remote_lost_request :
+    (stepMT tokEnv (Buggy.stepMTLost stR (Q 0 0 44 28 .requestUnreadable)).1 (Q 0 0 44 28)).2.used
+      = some ⟨8, 28, 16, 20, 36⟩ ∧
     (traceMT tokEnv stR [Q 0 0 44 28 .requestUnreadable, Q 0 0 44 28]).map (fun o => (o.res, o.used)) =
-      [(.unpickleErr, none), (.ok, some ⟨8, 28, 16, 20, 36⟩)] := by decide
+      [(.syncFail, none), (.ok, some ⟨44, 28, 16, 20, 36⟩)] := by decide
 
 /-- … and until the global schema changes the client is wedged: the elided parts keep the
     unpicklable value on the compiler server and every request fails. -/
